@@ -20,6 +20,7 @@ def run(ctx):
         out = b''
         while len(out) < n: out += rnd.choice(words) + b' '
         return out[:n]
+    def binary(n): return bytes(rnd.choice([0, 255, 0, 255, 7, 65, 128]) for _ in range(n))     # zero / 0xff bytes in every window position
     ev = []; digests = {}
     lens = [0, 4, 49, 50, 51, 255, 256, 257, 700] + ([3300, 1000, 5000] if big else [1200])
     k = 0
@@ -57,6 +58,42 @@ def run(ctx):
             e['obs'] = dict(none=r is None, digest=[] if r is None else B(r))
         except Exception as ex: e['raised'] = type(ex).__name__
         ev.append(e); ctx.mark(('gate', q['note'], q['buckets'], q['wnd'], q['chk']))
+    # inputs SELECTED so that a quartile ratio is an exact percentage on which float evaluation orders disagree (q/q3*100 vs q*100/q3: 29/50, 57/100, ...);
+    # the prefixes of seeded texts are scanned with an incremental bucket count (selection only - TLC judges the digest)
+    try:
+        from crysp.tlsh import PEARSON_T as PT
+        TRI = [(2, 1, 2, 3), (3, 1, 2, 4), (5, 1, 3, 4), (7, 1, 3, 5), (11, 1, 2, 5), (13, 1, 4, 5)]
+        CRIT = {(a, b) for b in range(1, 1500) for a in range(b + 1) if int(a / b * 100) != a * 100 // b or int(a * 100. / b) != a * 100 // b}
+        def pm(c):
+            x = 0
+            for y in c: x = PT[x ^ y]
+            return x
+        found = 0
+        for trial in range(8 if big else 4):
+            src = text(7000 if big else 4500); bk = [0] * 256; got = set()
+            for ew in range(5, len(src) + 1):
+                w = src[ew - 5:ew]
+                for (s_, a_, b_, c_) in TRI: bk[pm((s_, w[-a_], w[-b_], w[-c_]))] += 1
+                if ew < 300 or ew % 3: continue
+                for bkts in (128, 48, 256):
+                    if bkts in got: continue
+                    srt = sorted(bk[:bkts]); cs = bkts // 4; q1, q2, q3 = srt[cs - 1], srt[2 * cs - 1], srt[3 * cs - 1]
+                    if q3 and ((q1, q3) in CRIT or (q2, q3) in CRIT):
+                        got.add(bkts); data = src[:ew]; cfg = dict(buckets=bkts, wnd=5, chk=1)
+                        e = dict(op='tlsh', cfg=cfg, data=B(data), force=False, raised='', obs=dict(none=True, digest=[]))
+                        try:
+                            r = T.TLSH(bkts, 5, 1)(data, False); e['obs'] = dict(none=r is None, digest=[] if r is None else B(r))
+                        except Exception as ex: e['raised'] = type(ex).__name__
+                        ev.append(e); found += 1; ctx.mark(('exact-percentage quartiles', bkts, q1, q2, q3))
+            if found >= (6 if big else 3): break
+    except ImportError: pass
+    # very long inputs: one bucket counts far beyond 2^16
+    for data in ([bytes(66000) + text(2500), bytes(66000)] if big else [bytes(66000) + text(2500)]):
+        e = dict(op='tlsh', cfg=dict(buckets=128, wnd=5, chk=1), data=B(data), force=False, raised='', obs=dict(none=True, digest=[]))
+        try:
+            r = T.TLSH(128, 5, 1)(data, False); e['obs'] = dict(none=r is None, digest=[] if r is None else B(r))
+        except Exception as ex: e['raised'] = type(ex).__name__
+        ev.append(e); ctx.mark(('long input', len(data)))
     # the module-level singleton
     for n in (40, 300):
         data = text(n); e = dict(op='tlsh', cfg=dict(buckets=128, wnd=5, chk=1), data=B(data), force=False, raised='', obs=dict(none=True, digest=[]))
@@ -88,7 +125,7 @@ def run(ctx):
     for target in ((None, 53, 17, 1, 255, 54, 0) if big else (None, 17, 0)):
         tv = 53 if target is None else target
         for n in ([0, 1, 2, 3, 4, 5, 6, 20, 100, 300] + [32 * q + d for q in range(1, 9) for d in (2, 3, 4, 5)] if big else [0, 1, 3, 4, 5, 6, 40, 150, 34, 35, 36, 67, 68, 99, 100, 131]):   # incl. both sides of every step of the threshold (8n-28)//256
-            data = text(n) if n % 2 else rb(n)
+            data = text(n) if n % 2 else (rb(n) if n % 4 else binary(n))
             e = dict(op='nil', target=tv, data=B(data), raised='', obs=[])
             try:
                 r = (N.Nilsimsa() if target is None else N.Nilsimsa(target))(data); e['obs'] = B(r)
@@ -96,8 +133,8 @@ def run(ctx):
             except Exception as ex: e['raised'] = type(ex).__name__
             ev.append(e); ctx.mark(('nil', tv, n))
         # every byte cut of seeded strings (the Nilsimsa clause of C14)
-        for n in ((5, 9, 17, 40) if big else (5, 12)):
-            data = text(n)
+        for n in ((5, 9, 17, 40, 10, 18) if big else (5, 12, 10)):
+            data = text(n) if n % 2 or n == 12 or n == 40 else binary(n)
             for cut in range(n + 1):
                 e = dict(op='nil_split', target=tv, a=B(data[:cut]), b=B(data[cut:]), raised='', obs=[])
                 try: e['obs'] = B((N.Nilsimsa() if target is None else N.Nilsimsa(target)).update(data[:cut]).update(data[cut:]).digest())
@@ -116,6 +153,9 @@ def run(ctx):
         for a in ((3, 7, 12) if not big else range(0, 20, 2)):
             for mid in (0, 1, 2, 3):
                 multi([data[:a], data[a:a + mid], data[a + mid:]]); ctx.mark(('nilmulti', tv, a, mid))
+        multi([data[j:j + 1] for j in range(len(data))])
+        data = b'\xff\x00ab\x00\xff\xff\x00' + binary(12)
+        for a in (4, 5, 9): multi([data[:a], data[a:a + 1], data[a + 1:]])
         multi([data[j:j + 1] for j in range(len(data))])
         for _ in range(6 if big else 2):
             d2 = text(rnd.randrange(10, 60)); cuts = sorted(rnd.randrange(len(d2) + 1) for _ in range(rnd.randrange(2, 6)))
